@@ -2,6 +2,7 @@ package main
 
 import (
 	"fmt"
+	"go/constant"
 	"go/token"
 	"sort"
 	"strings"
@@ -358,12 +359,7 @@ func checkC05(c *Ctx) {
 				return
 			}
 			nNil++
-			pre := false
-			allInstrs(cs.Fn, func(i2 ssa.Instruction) {
-				if call, ok := i2.(*ssa.Call); ok && call.Call.StaticCallee() != nil && strings.HasPrefix(call.Call.StaticCallee().Name(), "addParseErr") && precedes(call, ret) {
-					pre = true
-				}
-			})
+			pre := exitReported(cs.Fn, ret, 0)
 			r.Ob("NIL-WITH-ERR", fmt.Sprintf("%s nil return #%d", name, retOrdinal(cs.Fn, ret)), t.Pos(ret.Pos()), pre, "a constructor that gives up must have recorded a parse error first, otherwise the parse ends with neither tree nor error")
 		})
 	}
@@ -818,4 +814,76 @@ func edgeOrdinal(edges []lexEdge, e lexEdge) int {
 		}
 	}
 	return n
+}
+
+// exitReported: on the way to this exit of f a parse error was recorded — by a call of addParseErr* or of a helper
+// that reports on all its paths (reportsParseErr), or because the exit is taken on the verdict of a helper (a
+// validation function or local closure returning a bool, alone or beside a value) whose every return with that
+// verdict is itself reported (two levels).
+func exitReported(f *ssa.Function, at ssa.Instruction, depth int) bool {
+	found := false
+	allInstrs(f, func(i2 ssa.Instruction) {
+		if call, ok := i2.(*ssa.Call); ok && call.Call.StaticCallee() != nil && reportsParseErr(call.Call.StaticCallee(), 0) && precedes(call, at) {
+			found = true
+		}
+	})
+	if found || depth >= 2 {
+		return found
+	}
+	for _, ec := range controlling(at.Block()) {
+		if verdictReported(ec.Cond, ec.Pol, depth) {
+			return true
+		}
+	}
+	// a short-circuit chain (`!ok(a) || !ok(b) || …`): every edge into the exit's block is such a verdict
+	if b := at.Block(); len(b.Preds) >= 2 {
+		all := true
+		for _, p := range b.Preds {
+			iff, isIf := p.Instrs[len(p.Instrs)-1].(*ssa.If)
+			if !isIf || !verdictReported(iff.Cond, p.Succs[0] == b, depth) {
+				all = false
+			}
+		}
+		return all
+	}
+	return false
+}
+
+func verdictReported(cond ssa.Value, pol bool, depth int) bool {
+	if u, ok := cond.(*ssa.UnOp); ok && u.Op == token.NOT {
+		cond, pol = u.X, !pol
+	}
+	idx := 0
+	var call *ssa.Call
+	switch x := cond.(type) {
+	case *ssa.Call:
+		call = x
+	case *ssa.Extract:
+		call, _ = x.Tuple.(*ssa.Call)
+		idx = x.Index
+	}
+	if call == nil {
+		return false
+	}
+	h := call.Call.StaticCallee()
+	if h == nil || len(h.Blocks) == 0 || !inModule(h) {
+		return false
+	}
+	okAll, n := true, 0
+	allInstrs(h, func(i2 ssa.Instruction) {
+		ret, isR := i2.(*ssa.Return)
+		if !isR || idx >= len(ret.Results) {
+			return
+		}
+		if c, isC := ret.Results[idx].(*ssa.Const); isC && c.Value != nil && c.Value.Kind() == constant.Bool {
+			if constant.BoolVal(c.Value) != pol {
+				return // the other verdict
+			}
+		}
+		n++
+		if !exitReported(h, ret, depth+1) {
+			okAll = false
+		}
+	})
+	return okAll && n > 0
 }
